@@ -100,6 +100,38 @@ def handle (op : String) (j : Json) : Option Json :=
           if cls == "ok" then some "umount with neither a layer nor -all reported success"
           else if !unchanged then some "umount with neither a layer nor -all changed something"
           else none
+        else if prop == "C02" && words.length ≥ 2 && (words.getD 1 b!"x").isEmpty &&
+            [b!"add", b!"remove", b!"rename", b!"rebase"].contains (words.headD []) then
+          -- an empty string where the layer name belongs: "Layer name is not set"
+          if cls == "ok" then some "a structural command with an empty layer name reported success"
+          else if !unchanged then some "a structural command with an empty layer name changed something"
+          else none
+        else if prop == "C09" && words.headD [] == b!"remove" && cls == "ok" &&
+            !(argv.any fun t => t == b!"-files" || t == b!"--files" || t == b!"-files=true" || t == b!"--files=true") &&
+            !pretendRequested argv then
+          -- remove without -files (whatever other switches): every file below the layer directory
+          -- is still there, at its place or below <name>~removed
+          let d := pathJoin [cfg.layerdirs, words.getD 1 []]
+          let preFs := getTree (match preT with | Json.arr a => a.toList | _ => [])
+          let postFs := getTree (getArr ob "tree")
+          let own := [pathJoin [d, b!"layerconfig"], pathJoin [d, cfg.buildRoot, b!"root", b!".bashrc"]]
+          let lost := preFs.any fun e =>
+            Fs.under d e.1 && e.1 != d &&
+            (match e.2 with
+             | .dir => false
+             | node => !own.contains e.1 &&
+                 Fs.get postFs e.1 != some node &&
+                 Fs.get postFs (d ++ b!"~removed" ++ e.1.drop d.length) != some node)
+          if (words.getD 1 []).isEmpty then none
+          else if lost then some "remove without -files destroyed user data" else none
+        else if prop == "C04" && op == "binman" && !(getB j "inuse").isEmpty &&
+            (words.headD [] == b!"remove" || words.headD [] == b!"rename" || words.headD [] == b!"rebase") &&
+            words.getD 1 [] == getB j "inuse" then
+          -- a real process works inside the layer (started by the scenario's first step): the
+          -- command must refuse and change nothing, whatever switches it is given
+          if cls == "ok" then some "remove/rename/rebase of a layer in use succeeded"
+          else if !unchanged then some "remove/rename/rebase of a layer in use was refused but changed something"
+          else none
         else if prop == "C03" && op == "binman" && words.length == 2 && (words.headD [] == b!"umount") then
           -- an idle base layer (these scenarios have no derived layers and no processes in
           -- the build root): umount must clear everything at or below its build root
